@@ -144,9 +144,10 @@ class CFG:
         while work:
             x = work.pop()
             for a in self.reach:
-                if len(self.succ[a]) < 2:
+                live = [s for s in self.succ[a] if s in self.can_exit]
+                if len(live) < 2:
                     continue
-                for s in self.succ[a]:
+                for s in live:
                     # x is control dependent on (a -> s) if x post-dominates s (or x == s) and x does not post-dominate a
                     if (x == s or self.postdominates(x, s)) and not (x != a and self.postdominates(x, a)):
                         if (a, s) not in seen:
